@@ -42,6 +42,15 @@ IsIrq(pid, t) == ND(pid, t).kind = "act" /\ ND(pid, t).uses = "irq"
 OpenIrq(pid) == \E t \in TaskKeys(pid) : TS(pid, t).st = "interrupted" /\ ND(pid, t).kind = "act"
 Terminated(pid) == procs[pid].ev.term >= 1
 
+(* sub-workflow calls: the child processes of a calling act, open calls *)
+IsSub(pid, t) == ND(pid, t).kind = "act" /\ ND(pid, t).uses = "sub"
+ChildrenOf(pid, t) == { c \in Pids : Started(c) /\ ParentOfProc(procs[c]) = [pid |-> pid, t |-> t] }
+ChildrenOfProc(pid) == { c \in Pids : Started(c) /\ ParentOfProc(procs[c]).pid = pid }
+ProcEnded(c) == procs[c].ts # <<>> /\ IsDone(procs[c].ps)
+WaitsOnChild(pid) ==
+  \E t \in TaskKeys(pid) : /\ IsSub(pid, t) /\ TS(pid, t).st = "running"
+                            /\ \E c \in ChildrenOf(pid, t) : ~ProcEnded(c)
+
 V(name, pid, t, kfs) == [p |-> name, pid |-> pid, t |-> t, kf |-> kfs]
 Holds(VS) == VS = {}
 HoldsX(VS) == \A v \in VS : v.kf # {}
@@ -89,7 +98,12 @@ KF_back_leaves_siblings(pid, u) ==
 (* are still open beneath it (task.rs:423-431: only is_completed is         *)
 (* refused).  Explains open tasks beneath an act closed by a client action. *)
 KF_action_on_running_act(pid, u) ==
-  \E a \in AncSet(P(pid), u) : ND(pid, a).kind = "act" /\ TS(pid, a).okterm >= 1
+  \E a \in AncSet(P(pid), u) :
+     /\ ND(pid, a).kind = "act"
+     /\ \/ TS(pid, a).okterm >= 1
+        \* (a client error admitted on a waiting sub-workflow call and taken by its catch: the
+        \* child's return then closes the call over the catch's steps)
+        \/ (ND(pid, a).uses = "sub" /\ TS(pid, a).retn >= 1 /\ TS(pid, a).caught # NIL)
 
 (* KF_alive_after_error: an error that ends the process (error event        *)
 (* delivered) does not stop the other branches of a multi-branch step.  They *)
@@ -136,7 +150,7 @@ V_C01_QuiescentOK ==
   ELSE { V("C01_QuiescentOK", pid, NoKey,
              {k \in {"KF_step_timeout_review"} : KF_step_timeout_review_p(pid)}
              \cup {k \in {"KF_back_enclosing"} : KF_back_enclosing_p(pid)}) :
-           pid \in { q \in LivePids : ~Terminated(q) /\ ~OpenIrq(q) } }
+           pid \in { q \in LivePids : ~Terminated(q) /\ ~OpenIrq(q) /\ ~WaitsOnChild(q) } }
 
 (* C02 — only legal transitions; every write is judged where it happens      *)
 (* (Acts!SetStVia / the observed write events) and collected in `viol`.      *)
@@ -487,6 +501,126 @@ C19_NeverEarly       == HoldsX(V_C19_NeverEarly)
 C19_OnlyOpen         == HoldsX(V_C19_OnlyOpen)
 C19_Prompt           == HoldsX(V_C19_Prompt)
 
+-----------------------------------------------------------------------------
+(* C15 — sub-process call and return *)
+
+(* KF_parent_close_orphans_child: nothing ties a child process to the fate of  *)
+(* its caller.  A calling act that is closed by anything but the child's       *)
+(* return (a client action on the act itself, an abort of the parent process)  *)
+(* leaves the child running; the parent can end first and the child's return   *)
+(* is refused later.                                                           *)
+KF_parent_close_orphans_child(pid, t) ==
+  TS(pid, t).retn = 0 /\ (TS(pid, t).okterm > 0 \/ TS(pid, t).st # "completed" \/ TS(pid, t).caught # NIL)
+
+(* the calling act stays open while its child process runs *)
+V_C15_StaysOpen ==
+  UNION { { V("C15_StaysOpen", pid, t, {k \in {"KF_parent_close_orphans_child"} : KF_parent_close_orphans_child(pid, t)}) :
+              t \in { x \in TaskKeys(pid) : /\ IsSub(pid, x) /\ IsDone(TS(pid, x).st)
+                                             /\ \E c \in ChildrenOf(pid, x) : ~ProcEnded(c) } }
+          : pid \in LivePids }
+(* ... and does not close by itself: only the return or a client closes it *)
+V_C15_NoAutoComplete ==
+  UNION { { V("C15_NoAutoComplete", pid, t, {}) :
+              t \in { x \in TaskKeys(pid) : /\ IsSub(pid, x) /\ TS(pid, x).st = "completed"
+                                             /\ TS(pid, x).retn = 0 /\ TS(pid, x).okterm = 0
+                                             /\ TS(pid, x).caught = NIL /\ ~TS(pid, x).redo } }
+          : pid \in LivePids }
+(* closed exactly once: never twice ... *)
+V_C15_AtMostOnce ==
+  UNION { { V("C15_AtMostOnce", pid, t, {}) : t \in { x \in TaskKeys(pid) : TS(pid, x).retn >= 2 } }
+          : pid \in LivePids }
+(* ... and never left hanging: once the child has ended and nothing is in flight, the call *)
+(* is closed; a call that could not start a child (unknown model) has failed               *)
+V_C15_Returned ==
+  IF ~Quiescent THEN {}
+  ELSE UNION { { V("C15_Returned", pid, t, {}) :
+                   t \in { x \in TaskKeys(pid) :
+                            /\ IsSub(pid, x) /\ TS(pid, x).st = "running" /\ TS(pid, x).retn = 0
+                            /\ TS(pid, x).caught = NIL      \* (not: reopened by its own catch)
+                            /\ \A c \in ChildrenOf(pid, x) : ProcEnded(c) } }
+               : pid \in { q \in LivePids : ~procs[q].gone /\ ~IsDone(procs[q].ps) } }
+(* the child runs the called model with exactly the inputs of the call *)
+V_C15_ChildInputs ==
+  UNION { { V("C15_ChildInputs", c, NoKey, {}) :
+              c \in { x \in ChildrenOfProc(pid) :
+                       LET pt == ParentOfProc(procs[x]).t IN
+                       pt \in TaskKeys(pid) /\
+                       ~(/\ procs[x].inp = ND(pid, pt).opts
+                         /\ procs[x].mi = FindModel(procs[pid].mi, ND(pid, pt).to)) } }
+          : pid \in LivePids }
+(* the parent's terminal event never precedes the child's *)
+V_C15_ParentLast ==
+  UNION { { V("C15_ParentLast", pid, ParentOfProc(procs[c]).t,
+              {k \in {"KF_parent_close_orphans_child"} :
+                 LET pt == ParentOfProc(procs[c]).t IN
+                 pt \in TaskKeys(pid) /\ (KF_parent_close_orphans_child(pid, pt) \/ ~IsDone(TS(pid, pt).st))}) :
+              c \in { x \in ChildrenOfProc(pid) : procs[x].ev.term = 0 } }
+          : pid \in { q \in LivePids : Terminated(q) } }
+(* a return closes the act the way the child ended (step formula) *)
+C15_ReturnMatchesStep ==
+  (lastAct'.a = "Return" /\ lastRes' = "ok") =>
+    LET pid == lastAct'.pid  t == lastAct'.t  k == lastAct'.kind
+        cs == { c \in Pids : procs'[c].st # "absent" /\ ParentOfProc(procs'[c]) = [pid |-> pid, t |-> t]
+                              /\ procs'[c].ts # <<>> /\ IsDone(procs'[c].ps) }
+        T == procs'[pid].ts[t]
+    IN /\ \E c \in cs : k = (CASE procs'[c].ps = "aborted" -> "abort" [] procs'[c].ps = "skipped" -> "skip"
+                                 [] procs'[c].ps = "error" -> "error" [] OTHER -> "complete")
+       /\ (k = "complete" => T.st = "completed")
+       /\ (k = "abort" => T.st = "aborted")
+       /\ (k = "skip" => T.st = "skipped")
+       /\ (k = "error" => \E c \in cs : procs'[c].ps = "error"
+                                         /\ (T.err = procs'[c].perr \/ T.caught = procs'[c].perr))
+C15_ReturnMatches == [][C15_ReturnMatchesStep]_vars
+
+-----------------------------------------------------------------------------
+(* C13 — processes are isolated *)
+
+(* what a process is, for the comparison: states, errors, links and data of its tasks *)
+ProcImage(p) ==
+  IF p.st = "absent" THEN <<"absent">>
+  ELSE IF p.ts = <<>> THEN <<"started">>
+  ELSE <<p.ps, p.perr, [k \in DOMAIN p.ts |-> <<p.ts[k].st, p.ts[k].err, p.ts[k].prev, p.ts[k].data>>]>>
+
+(* (on observed runs the data of a process that is not in the cache is unknown: "?") *)
+SameImage(p, q) ==
+  \/ ProcImage(p) = ProcImage(q)
+  \* (observed runs: a process that is not in the cache is known by its probes only)
+  \/ p.st # "absent" /\ q.st # "absent" /\ (~p.cached \/ ~q.cached)
+  \/ /\ p.st # "absent" /\ q.st # "absent" /\ p.ts # <<>> /\ q.ts # <<>>
+     /\ p.ps = q.ps /\ p.perr = q.perr /\ DOMAIN p.ts = DOMAIN q.ts
+     /\ \A k \in DOMAIN p.ts : /\ p.ts[k].st = q.ts[k].st /\ p.ts[k].err = q.ts[k].err /\ p.ts[k].prev = q.ts[k].prev
+                                /\ (p.ts[k].data = q.ts[k].data \/ p.ts[k].data = "?" \/ q.ts[k].data = "?")
+
+(* a step of one process leaves every other process, its queue entries and its   *)
+(* messages alone; the only things it may do to others: start a child, and park a *)
+(* return to its caller                                                           *)
+C13_OnlyOwnStep ==
+  (lastAct'.a \in {"StartCall", "Launch", "Exec", "Act", "Return", "Evict"}) =>
+    LET own == lastAct'.pid IN
+    /\ \A q \in Pids \ {own} :
+          \/ SameImage(procs'[q], procs[q])
+          \/ /\ ProcImage(procs[q]) \in {<<"absent">>, <<"started">>}       \* a child started by this step
+              /\ ProcImage(procs'[q]) = <<"started">>
+              /\ ParentOfProc(procs'[q]).pid = own
+          \/ procs[q].st # "absent" /\ procs[q].gone /\ ProcImage(procs'[q]) = <<"started">>
+    /\ \A x \in queue' \ queue : x[1] = own
+    /\ \A x \in queue \ queue' : x[1] = own
+    /\ \A i \in DOMAIN lastOut' : lastOut'[i].pid = own
+C13_OnlyOwn == [][C13_OnlyOwnStep]_vars
+
+(* a start with the id of a process that is still there is refused *)
+C13_DupRefusedStep ==
+  (lastAct'.a = "StartCall" /\ lastRes' = "ok") =>
+    LET pid == lastAct'.pid IN procs[pid].st = "absent" \/ procs[pid].gone
+C13_DupRefused == [][C13_DupRefusedStep]_vars
+
+C15_StaysOpen        == HoldsX(V_C15_StaysOpen)
+C15_NoAutoComplete   == HoldsX(V_C15_NoAutoComplete)
+C15_AtMostOnce       == HoldsX(V_C15_AtMostOnce)
+C15_Returned         == HoldsX(V_C15_Returned)
+C15_ChildInputs      == HoldsX(V_C15_ChildInputs)
+C15_ParentLast       == HoldsX(V_C15_ParentLast)
+
 (* ... and everything at once, for the observed behaviours *)
 AllV ==
   V_C01_QuiescentOK \cup V_C02_Lifecycle \cup V_C03_ParentDone \cup V_C03_ProcMirrorsRoot
@@ -497,6 +631,8 @@ AllV ==
   \cup V_C06_CaughtCompletes \cup V_C08_AtMostOne \cup V_C08_CreatedFirst
   \cup V_C08_TerminalReported \cup V_C08_BranchSilent \cup V_C08_MsgAct \cup V_C08_ParentFirst
   \cup V_C19_Once \cup V_C19_NeverEarly \cup V_C19_OnlyOpen \cup V_C19_Prompt
+  \cup V_C15_StaysOpen \cup V_C15_NoAutoComplete \cup V_C15_AtMostOnce \cup V_C15_Returned
+  \cup V_C15_ChildInputs \cup V_C15_ParentLast
   \cup V_C11_Image \cup V_C17_Retention \cup V_C17_RowsLeft \cup V_C17_Refused
 
 (* debugging aid: bound on instances per node *)
